@@ -79,6 +79,127 @@ def failing_histories(ctx, n, r):
     return out
 
 
+# ---------------------------------------------------------------------------------------------
+# Order irrelevance on the implementation's own output (no model involved)
+# ---------------------------------------------------------------------------------------------
+def canon_state(st, n0):
+    """The state of the script's own variables (the first n0) up to the identity of class roots and of the variables
+    created inside relate: per variable its class (least member), universe if unbound, deep value if bound (unbound
+    variables inside values replaced by the least member of their class; variables created by relate numbered in
+    order of first appearance)."""
+    ren = {}
+
+    def rn(t):
+        if t[0] == "Node":
+            h = t[1]
+            if L.hname(t) in L.VAR_HEADS and h[1] >= n0:
+                h = (h[0], 1000 + ren.setdefault(h[1], len(ren))) + tuple(h[2:])
+            return ("Node", h, [rn(c) for c in t[2]])
+        if t[0] == "CVar":
+            return ("CVar", t[1], t[2], rn(t[3]))
+        return t
+    cells = []
+    for v in range(min(n0, st.n)):
+        if st.probe[v] is None:
+            cells.append(("U", st.cls[v], st.univ[v]))
+        else:
+            try:
+                cells.append(("B", sx.to_sexp(rn(st.deep(st.probe[v])))))
+            except L.CyclicTable:
+                cells.append(("CYCLIC",))
+    return (st.maxu, tuple(cells))
+
+
+def order_variants(hist):
+    """(tag, comparison, list of relate pairs).  comparison: 'steps' = same goals in the same order (arguments swapped):
+    every step must have the same outcome and leave the same state; 'set' = the same set of goals (permuted, or zipped
+    into ONE relate of two tuples): all succeed in one order iff in the other, with the same final state."""
+    import itertools
+    k = len(hist)
+    sw = lambda p: (p[1], p[0])
+    out = []
+    for mask in range(1, 2 ** k):
+        out.append(("swap%d" % mask, "steps", [sw(p) if mask >> i & 1 else p for i, p in enumerate(hist)]))
+    for perm in itertools.permutations(range(k)):
+        if list(perm) != list(range(k)):
+            out.append(("perm%s" % "".join(map(str, perm)), "set", [hist[i] for i in perm]))
+            out.append(("perm%s-swapped" % "".join(map(str, perm)), "set", [sw(hist[i]) for i in perm]))
+        tup = lambda xs: L.N(("HTuple", k), list(xs))
+        a, b = tup(hist[i][0] for i in perm), tup(hist[i][1] for i in perm)
+        out.append(("zip%s" % "".join(map(str, perm)), "set", [(a, b)]))
+        out.append(("zip%s-swapped" % "".join(map(str, perm)), "set", [(b, a)]))
+    return out
+
+
+def order_stage(ctx, viol, stats):
+    bases = c14.union_bind_histories() + c14.numeric_chain_histories()
+    mk = lambda pre, hist: ([], [], list(pre) + [("SRelate", "Invariant", a, b) for (a, b) in hist])
+    scripts, index = [], []
+    for bi, (pre, hist) in enumerate(bases):
+        scripts.append(mk(pre, hist))
+        index.append((bi, "base", None))
+        for (tag, cmp_, h) in order_variants(hist):
+            scripts.append(mk(pre, h))
+            index.append((bi, tag, cmp_))
+    traces, raw = L.run_scripts(scripts)
+    base_of = {}
+
+    def summary(case, tr):
+        rel = [sr for s_, sr in zip(case[2], tr) if s_ != "SNewUniverse" and s_[0] == "SRelate"]
+        kinds = [sr.kind for sr in rel]
+        nrel = sum(1 for s_ in case[2] if s_ != "SNewUniverse" and s_[0] == "SRelate")
+        complete = len(rel) == nrel
+        n0 = sum(1 for s_ in case[2] if s_ != "SNewUniverse" and s_[0] == "SNewVar")
+        states = [canon_state(sr.state, n0) if sr.state is not None else None for sr in rel]
+        return kinds, states, complete
+
+    def report(what, bi, tag, j, extra=None):
+        stats["order_violations"] += 1
+        if len(viol) < 3:
+            viol.append(1)
+            pre, hist = bases[bi]
+            obj = {"kind": "property", "what": what, "variant": tag,
+                   "case": sx.to_sexp(L.harness_case(*scripts[j])), "base_case": sx.to_sexp(L.harness_case(*mk(pre, hist)))}
+            if extra:
+                obj.update(extra)
+            ctx.violation(obj)
+
+    for j, ((bi, tag, cmp_), case, tr, o) in enumerate(zip(index, scripts, traces, raw)):
+        if tr is None:
+            raise core.CheckFailure("infer harness could not run an order-irrelevance case: %s" % ((o or "")[:400]))
+        kinds, states, complete = summary(case, tr)
+        stats["order_scripts"] += 1
+        ctx.count("order:" + (cmp_ or "base"), sx.to_sexp(L.harness_case(*case)), nontrivial=True)
+        if "Panic" in kinds or L.died(o) or not complete:
+            report("relate on well-kinded lifetime-free types panicked / did not return (%s)" % "/".join(kinds), bi, tag, j,
+                   {"implementation": [sx.to_sexp(x.raw)[:600] for x in tr][-2:]})
+            continue
+        if tag == "base":
+            base_of[bi] = (kinds, states, j)
+            continue
+        if bi not in base_of:
+            continue
+        bk, bs, bj = base_of[bi]
+        if cmp_ == "steps":
+            if kinds != bk:
+                report("swapping the two arguments of relate changes success / failure: %s vs %s" % ("/".join(bk), "/".join(kinds)), bi, tag, j)
+            elif states != bs:
+                d = next(i for i, (x, y) in enumerate(zip(bs, states)) if x != y)
+                report("swapping the two arguments of relate changes the resulting state (after relate #%d)" % d, bi, tag, j,
+                       {"state_base": repr(bs[d])[:1500], "state_variant": repr(states[d])[:1500]})
+        else:
+            ok_b, ok_v = all(x == "Ok" for x in bk), all(x == "Ok" for x in kinds)
+            if ok_b != ok_v:
+                report("the same set of equalities succeeds in one order and fails in another: %s vs %s" % ("/".join(bk), "/".join(kinds)), bi, tag, j)
+            elif ok_b and states[-1] != bs[-1]:
+                report("the same set of equalities leaves different states in different orders", bi, tag, j,
+                       {"state_base": repr(bs[-1])[:1500], "state_variant": repr(states[-1])[:1500]})
+    ctx.cov["order_irrelevance"] = {"base_histories": len(bases), "scripts": len(scripts)}
+    # the base histories and their one-relate (zipped) forms also go through the model
+    sel = [j for j, (bi, tag, _) in enumerate(index) if tag == "base" or tag == "zip" + "".join(map(str, range(len(bases[bi][1]))))]
+    return [scripts[j] for j in sel], [traces[j] for j in sel]
+
+
 def run(ctx):
     ok, why = ctx.proof_stage("Props.C15", THEOREMS)
     core.build_harness(bins=["infer"])
@@ -89,10 +210,16 @@ def run(ctx):
             ("c14-invariant", c14.random_cases(ctx, total // 4, r, c14.PROFILES["c14-invariant"])),
             ("extended", c14.random_cases(ctx, total // 4, r, c14.PROFILES["extended"]))]
     viol = []
-    stats = {"failed": 0, "both": 0, "asym": 0}
+    stats = {"failed": 0, "both": 0, "asym": 0, "order_scripts": 0, "order_violations": 0}
     mism_total = 0
+    ocases, otraces = order_stage(ctx, viol, stats)
+    fams.insert(1, ("order-bases", ocases))
+    pre_run = {"order-bases": otraces}
     for fam, cases in fams:
-        traces, raw = L.run_scripts(cases)
+        if fam in pre_run:
+            traces, raw = pre_run[fam], [None] * len(cases)
+        else:
+            traces, raw = L.run_scripts(cases)
         for c, tr, o in zip(cases, traces, raw):
             if tr is None:
                 raise core.CheckFailure("infer harness could not run a %s case: %s" % (fam, (o or "")[:400]))
@@ -101,6 +228,9 @@ def run(ctx):
                 ctx.violation({"kind": "property", "what": "relate did not return: the process aborted (native stack overflow) or hung at step %d" % len(tr),
                                "case": sx.to_sexp(L.harness_case(c[0], c[1], c[2][:len(tr) + 1])), "harness": (o or "")[:300]})
             check_history(ctx, fam, c, tr, viol, stats)
+            if any(sr.kind == "Panic" for sr in tr) and fam == "order-bases" and len(viol) < 3:
+                viol.append(1)
+                ctx.violation({"kind": "property", "what": "relate panicked", "case": sx.to_sexp(L.harness_case(*c))})
             for s, sr in zip(c[2], tr):
                 if s != "SNewUniverse" and s[0] in ("SRelate", "SBoth"):
                     ctx.count(fam + ":" + s[0][1:], sx.to_sexp(s) + "|" + str(len(tr)), nontrivial=(sr.kind == "Err" or s[0] == "SBoth") and L.tsize(s[2]) + L.tsize(s[3]) > 2)
@@ -121,6 +251,7 @@ def run(ctx):
     ctx.cov["model_mismatches"] = mism_total
     ctx.cov["rule"] = ("histories of 2-5 relate calls (any variance) on one real table, biased so that a relate fails late (after bindings, universe promotions, fresh variables, new universes from fn-pointer binders): "
                        "state before == state after every failed relate; relate(a,b) vs relate(b,a) on clones; plus the head-constructor sweep and the infer/test.rs scenarios; "
+                       "order-irrelevance stage on the implementation alone: 198 base histories (var-var unions among three unknowns followed by the binding of a member to a structure containing a member, two universe layouts; const unknowns through arrays / ADT const parameters; general unknown := int / float unknown := scalar, then used) each re-run with every subset of relates argument-swapped (same outcomes and same states step by step), every permutation of the goal list and the goals zipped into ONE relate of two tuples in every component order, both argument orders (all succeed in one order iff in every other, same final state up to class roots); a panic is a violation; "
                        "non-trivial = failed relate or both-order probe on non-leaf terms; distinct by (pair, history length)")
     if not ok:
         ctx.violation({"kind": "proof", "broken": why}, no_input=True)
